@@ -76,3 +76,13 @@ Theorem C02_cond_cov_direct (R : rcfType) n nt (var : vec R) (S Ks Kss : mat R) 
   mx_of nt nt (direct_condition rops nt s Ks Kss Nstar) = mx_of nt nt Kss + Nsm - (mx_of n nt Ks)^T *m X.
 Proof. move=> rops s sym minors HN SX; exact: (cond_cov_direct var sym minors HN SX). Qed.
 Print Assumptions C02_cond_cov_direct.
+
+(* and alpha2 = solve_triangular(solve_triangular(y - m), transpose=True) of GaussianProcess._condition, computed by the model's
+   two substitutions with the model's factor, solves S alpha2 = y - m: the hypothesis of C02_cond_mean_paths is met on the dense path *)
+Theorem C02_direct_alpha2 (R : rcfType) n c (var : vec R) (S r : mat R) :
+  let rops := @fops R Num.sqrt (fun x y => x < y) in
+  let s := MkD n var S (dense_chol rops n S) in
+  (mx_of n n S)^T = mx_of n n S -> (forall m, (0 < m <= n)%N -> 0 < \det (mx_of m m S)) ->
+  mx_of n n S *m mx_of n c (d_solve_tri rops c s true (d_solve_tri rops c s false r)) = mx_of n c r.
+Proof. move=> rops s sym minors; exact: (direct_alpha2 var sym minors). Qed.
+Print Assumptions C02_direct_alpha2.
